@@ -148,7 +148,7 @@ func init() {
 		"routes with basic / HMAC (inline and rotating secret_ref versions, custom header names, tolerance) / forward auth; valid requests and systematic mutations (dropped/renamed headers, flipped signature bit, altered body/path/method, wrong or out-of-window secret, timestamps at tolerance +-{0,1s}), forward-auth service answering 2xx/401/403/other/hang/refused/reset; oracle: independent acceptance predicate -> status class, anything enqueued was authenticated, every rejection leaves the listing untouched; two in three programs end with a race of two or three concurrent requests interleaved at every statement of ServeHTTP / Verify / nonce cache: the queue gains exactly what the accepted answers stand for", 6000, 120000)
 	regI("C09", IngressProfile{Auth: []string{"hmac"}, Replay: true, Reload: true, MaxRoutes: 2, Backends: mem, Race: true},
 		"HMAC routes, small nonce pool, arrival times at and around the edges of [ts-tol, ts+tol] (clock on whole-second boundaries so that now == ts+tol is reached), invalid requests carrying the nonce first, config reloads between original and replay; oracle: per (route, nonce, signed timestamp) at most one 202 during the life of the node; two in three programs end with a race: the same signed request sent two or three times at once (or a captured one alongside a new one), interleaved at every statement of ServeHTTP, HMACAuth.Verify and the nonce cache by a seeded choice list: still at most one 202, and the queue gains exactly what the accepted answers stand for", 6000, 120000)
-	regI("C12", IngressProfile{Auth: []string{"none", "none", "basic"}, Rate: true, Limits: true, MaxRoutes: 3, Backends: mem, Fanout: true, Reload: true, Race: true},
+	regI("C12", IngressProfile{Auth: []string{"none", "none", "basic", "forward"}, Rate: true, Limits: true, MaxRoutes: 3, Backends: mem, Fanout: true, Reload: true, Race: true},
 		"ingress part: bodies and header sets around max_body/max_headers (413), arrival-time sequences at route-level and global token-bucket limiters (window characterisation: admitted iff count <= burst + rps x window for every window; 429 otherwise; windows cut at reloads), queue_limits through ingress (503, partial fan-out keeps earlier copies); every refusal leaves the listing unchanged; two in three programs end with a race of concurrent requests at the limiter: those admitted at one instant still fit burst + rps x window", 6000, 120000)
 	regI("C07", IngressProfile{Auth: []string{"none", "basic", "hmac", "forward"}, MaxRoutes: 3, Backends: mem, Fanout: true, Limits: true},
 		"ingress part: accepted requests with bodies containing NUL / 0xFF / invalid UTF-8 / CRLF / empty, header sets with repeated fields in several spellings, credential headers (Authorization, Proxy-Authorization, Cookie) and forward-auth copy_headers; oracle: the stored message (listed with payload and headers straight from the store) carries exactly the received bytes and the documented header map (canonical names, repeated values comma-joined, credentials dropped, copied forward-auth headers added)", 5000, 100000)
